@@ -325,6 +325,10 @@ func init() {
 		m.w.bounds[m.constStr(args[0], "suffix")] = int(args[1].(*Term).iv.Int64())
 		return nil
 	})
+	reg(symPkg+"DeclareEmptyStore", func(m *Machine, fn *ssa.Function, args []Value) Value {
+		m.w.store(m.constStr(args[0], "store")).empty = true
+		return nil
+	})
 	reg(symPkg+"DeclareRaw", func(m *Machine, fn *ssa.Function, args []Value) Value {
 		n := int(args[2].(*Term).iv.Int64())
 		m.w.schemas = append(m.w.schemas, &Schema{store: m.constStr(args[0], "store"), prefix: m.constStr(args[1], "prefix"), rawLen: n})
